@@ -5,7 +5,7 @@ from hqrules.templates import (effect_blocks, must_pass, state_writes, variants_
                                local_field_sources, binops, operand_fields, bool_uses, check_arm_effect, field_write_sites)
 from .common import *
 from .journal_common import *
-from . import job_table
+from . import job_table, shared_rules
 
 EXPLANATION = ('Structural necessary conditions of C10: (R10.1) every record that can be the first record of its task is replayed without '
                'assuming a prior entry; (R10.2) a torn tail is detected, its offset is plumbed to the writer and the file is truncated there; '
@@ -27,6 +27,9 @@ def run(ctx):
     ctx.rule('R10.5', 'single ordered writer: EventStreamMessage::Event constructed only in send_event; JournalWriter::store called only by the journal thread and prune')
     ctx.rule('R10.6', 'restore_job: completed tasks are not resubmitted, the restored state is copied with exactly its counter, and each outcome is counted once per task')
 
+    ctx.rule('R10.7', 'record order: dependents are journaled as aborted before the failure of their dependency; aborted/canceled tasks without a start record are replayed as terminal')
+    shared_rules.abort_before_fail(ctx, 'R10.7')
+    shared_rules.replay_records_missing_entry(ctx, 'R10.7')
     lef = prog.body(LEF)
     # ---- R10.1
     ws = job_table.job_state_writes(prog)
